@@ -705,7 +705,11 @@ pub fn props(args: &[String]) {
     // special hash values (0, 1, all-ones, 2^63, the golden-ratio and SplitMix constants) through the identity hasher:
     // order independence of every unweighted sketcher on small sets built from them
     {
-        let specials: [u64; 8] = [0, 1, u64::MAX, 1 << 63, 0x9E3779B97F4A7C15, 0xBF58476D1CE4E5B9, 0x94D049BB133111EB, 0x7FFFFFFFFFFFFFFF];
+        // NoHashHasher reads the item's bytes in big-endian order: both the value and its byte-swapped twin are streamed
+        let mut specials: Vec<u64> = Vec::new();
+        for v in [0u64, 1, u64::MAX, 1 << 63, 0x9E3779B97F4A7C15, 0xBF58476D1CE4E5B9, 0x94D049BB133111EB, 0x7FFFFFFFFFFFFFFF] {
+            for w in [v, v.swap_bytes()] { if !specials.contains(&w) { specials.push(w); } }
+        }
         for m in [1usize, 4, 16, 64] {
             for a in 0..specials.len() {
                 for b in 0..specials.len() {
@@ -1097,6 +1101,43 @@ pub fn mc(args: &[String]) {
                 if z.abs() > 6. {
                     found.push(json!({"sketcher": nm, "family": name, "m": m, "j": j, "mean": mean, "z": z, "trials": trials, "seed": seed}));
                 }
+            }
+        }
+    }
+    // single-item sketches of SuperMinHash: the position that carries integer part 0 is uniform over the m positions and
+    // independent of the fractional part stored there; fractional parts are uniform
+    for m in [16usize, 64, 500] {
+        let n = 40 * trials;
+        let mut cells = vec![0u64; m];
+        let (mut sx, mut sy, mut sxy, mut sxx, mut syy, mut sfrac, mut hit) = (0f64, 0f64, 0f64, 0f64, 0f64, 0f64, 0u64);
+        for t in 0..n {
+            let x = rng.next_u64() >> 4;
+            crate::util::tick_idx(t as u64, json!({"m": m, "item": x.to_string()}));
+            let mut s = SuperMinHash::<f64, u64, FnvHasher>::new(m, BuildHasherDefault::<FnvHasher>::default());
+            s.sketch(&x).unwrap();
+            let h = s.get_hsketch();
+            if let Some(pos) = h.iter().position(|v| *v < 1.0) {
+                let frac = h[pos];
+                cells[pos] += 1;
+                let px = (pos as f64 + 0.5) / m as f64;
+                sx += px; sy += frac; sxy += px * frac; sxx += px * px; syy += frac * frac;
+                if pos == (frac * m as f64) as usize { hit += 1; }
+            }
+            sfrac += h.iter().map(|v| v - v.floor()).sum::<f64>() / m as f64;
+        }
+        let nf = n as f64;
+        let chi2: f64 = cells.iter().map(|c| { let e = nf / m as f64; (*c as f64 - e) * (*c as f64 - e) / e }).sum();
+        let z_chi = (chi2 - (m as f64 - 1.)) / (2. * (m as f64 - 1.)).sqrt();
+        let cov = sxy / nf - (sx / nf) * (sy / nf);
+        let corr = cov / (((sxx / nf - (sx / nf).powi(2)) * (syy / nf - (sy / nf).powi(2))).sqrt().max(1e-300));
+        let z_corr = corr * nf.sqrt();
+        let p0 = 1.0 / m as f64;
+        let z_hit = (hit as f64 - nf * p0) / (nf * p0 * (1. - p0)).sqrt();
+        let z_frac = (sfrac / nf - 0.5) / (1. / (12. * m as f64 * nf)).sqrt();
+        for (what, z) in [("position of integer part 0 is not uniform (chi-square)", z_chi), ("position of integer part 0 is correlated with its fractional part", z_corr),
+                          ("position of integer part 0 equals floor(m * fractional part) too often", z_hit), ("mean fractional part differs from 1/2", z_frac)] {
+            if z.abs() > 7. {
+                found.push(json!({"sketcher": "SuperMinHash<f64> single item", "family": what, "m": m, "j": 0.0, "mean": z, "z": z, "trials": n, "seed": seed}));
             }
         }
     }
